@@ -796,7 +796,8 @@ def gen_C13(r):
         scn["enclosing"] = True
     n_gc = r.choice([1, 1, 2])
     for k in range(n_gc):
-        ops.append({"op": "gc", "flags": {"dry": r.random() < 0.45, "verbose": r.random() < 0.4}, "cwd": ""})
+        ops.append({"op": "gc", "flags": {"dry": r.random() < 0.45, "verbose": r.random() < 0.4},
+                    "cwd": r.choice(["", "", ""] + [p_ for p_ in scn["pkgs"] if p_] + ["cond-out"])})
     if r.random() < 0.3:
         ops.append(_run_op(r, scn["tasks"], jobs_choices=(None,), again_p=0.0, files=False, cwds=("",)))
     scn["history"] = ops
